@@ -1,2 +1,127 @@
-(* placeholder while the harness is brought up *)
-From Mv Require Import Model.Rsync.
+(* C20 — rsync transfers report every transmission failure.
+   Property theorems only: each is closed by [exact <lemma>] from
+   Proof/RsyncTx.v and listed under Print Assumptions.
+
+   Model: Model/Rsync.v, [deltify_tx fixed tx] = Engine.Deltify with a
+   transmitter oracle tx (call k succeeds iff tx k), the transmitter's call log
+   as output; [transmit_files fixed rx] = rsync.Transmit with a receiver oracle.
+   [fixed] selects one return statement of the closure sendBlock:
+     fixed = false : the tree as it is (return nil after a failed flush)
+     fixed = true  : the repaired code (return err).
+   The property is PROVED for fixed = true and REFUTED for fixed = false. *)
+From Coq Require Import List Arith ZArith Bool.
+From Coq Require Import Init.Byte.
+Import ListNotations.
+From Mv Require Import Model.Rsync Proof.Rsync Proof.RsyncTx.
+
+Section C20.
+Variable D : Type.
+Variable H : list byte -> D.
+Variable Deqb : D -> D -> bool.
+
+(* For EVERY transmit oracle: if the repaired Deltify reports success then no
+   transmit call failed, and the delivered operations are exactly those of the
+   failure-free run.  No assumption on the hash or the signature. *)
+Theorem c20_no_silent_loss :
+  forall (tx : nat -> bool) (target : list byte) (s : sig D) (maxop : nat) (t : tlog),
+    deltify_tx H Deqb true tx target s maxop = (DOk, t) ->
+    any_failed t = false /\
+    deltify_tx H Deqb true all_ok target s maxop = (DOk, t).
+Proof. exact (no_silent_loss D H Deqb). Qed.
+
+(* What transmit.go relies on ("as soon as it's returned non-nil, the transmit
+   function won't be called again"): the outcome of the last call tells
+   whether any call failed. *)
+Theorem c20_last_call_tells :
+  forall (tx : nat -> bool) (target : list byte) (s : sig D) (maxop : nat) (r : dres) (t : tlog),
+    deltify_tx H Deqb true tx target s maxop = (r, t) -> last_ok t = true ->
+    any_failed t = false /\ deltify_tx H Deqb true all_ok target s maxop = (r, t).
+Proof. exact (last_call_tells D H Deqb). Qed.
+
+(* Under any oracle and either variant Deltify returns nil or an error: no
+   panic, no exhausted fuel. *)
+Theorem c20_returns :
+  forall (fixed : bool) (tx : nat -> bool) (base target : list byte) (blk maxop : nat) (s : sig D),
+    0 < blk -> signature H base blk = Some s ->
+    okerr (fst (deltify_tx H Deqb fixed tx target s maxop)).
+Proof. exact (deltify_tx_returns D H Deqb). Qed.
+
+Hypothesis Deqb_spec : forall a b, Deqb a b = true <-> a = b.
+
+(* With C19: for any failure point(s), either the sender returns an error or
+   no call failed and the receiver rebuilds exactly the target. *)
+Theorem c20_either :
+  forall (tx : nat -> bool) (base target : list byte) (blk maxop : nat) (s : sig D) (r : dres) (t : tlog),
+    0 < blk -> signature H base blk = Some s -> collision_free H base blk target ->
+    deltify_tx H Deqb true tx target s maxop = (r, t) ->
+    r <> DOk \/ (any_failed t = false /\ patch base s (sent_of t) = Some target).
+Proof. exact (either_error_or_target D H Deqb Deqb_spec). Qed.
+
+(* rsync.Transmit: success is reported only if no Receive failed and the
+   receiver was handed, file by file, exactly the failure-free delta followed
+   by Done, or an explicit per-file error for a file that cannot be opened. *)
+Theorem c20_transmit :
+  forall (rx : nat -> bool) (fs : list (tfile D)) (r : list (tmsg * bool)),
+    transmit_files H Deqb true rx fs = (r, TOk) ->
+    rx_any_failed r = false /\
+    delivered r = concat (map (expected_file H Deqb true) fs).
+Proof. exact (transmit_exact D H Deqb). Qed.
+
+(* ... hence, with C19, under any Receive failures: Transmit returns an error,
+   or every file's delivered operations rebuild its target. *)
+Theorem c20_transmit_either :
+  forall (rx : nat -> bool) (files : list (list byte * option (list byte) * nat))
+         (tfs : list (tfile D)) (r : list (tmsg * bool)) (res : tres),
+    Forall2 (file_rel D H) files tfs ->
+    transmit_files H Deqb true rx tfs = (r, res) ->
+    check_C20_transmit H files (is_terr res) r = true.
+Proof. exact (fun rx => transmit_either D H Deqb rx Deqb_spec). Qed.
+
+(* The repaired model passes the checker under every oracle. *)
+Theorem c20_model_passes :
+  forall (tx : nat -> bool) (base target : list byte) (blk maxop : nat) (s : sig D) (r : dres) (t : tlog),
+    0 < blk -> signature H base blk = Some s -> collision_free H base blk target ->
+    deltify_tx H Deqb true tx target s maxop = (r, t) ->
+    check_C20 H base target blk (negb (dres_eqb r DOk)) t = true.
+Proof. exact (fun tx b t k m s r l => fixed_model_passes_check_C20 D H Deqb tx b t k m s r l Deqb_spec). Qed.
+
+End C20.
+
+(* Soundness of the checker that is applied to the implementation's runs:
+   it accepts only if an error was reported, or no call failed and the
+   delivered operations rebuild the target. *)
+Theorem c20_check_sound :
+  forall (D : Type) (H : list byte -> D) (base target : list byte) (blk : nat) (err : bool) (t : tlog),
+    check_C20 H base target blk err t = true ->
+    err = true \/
+    (any_failed t = false /\
+     exists s, signature H base blk = Some s /\ patch base s (sent_of t) = Some target).
+Proof. exact check_C20_sound. Qed.
+
+(* The tree as it is violates the property: one failed transmit call, Deltify
+   reports success, the receiver rebuilds "a" instead of "aa".  (Witness found
+   by the harness sweep; base "a", target "aa", block size 1, call 0 fails once.) *)
+Theorem c20_refuted_unfixed :
+  exists (tx : nat -> bool) (base target : list byte) (blk maxop : nat) (s : sig (list byte)) (t : tlog),
+    signature Hident base blk = Some s /\
+    deltify_tx Hident list_eqb false tx target s maxop = (DOk, t) /\
+    any_failed t = true /\
+    patch base s (sent_of t) <> Some target /\
+    check_C20 Hident base target blk false t = false.
+Proof. exact unfixed_refuted. Qed.
+
+(* Non-vacuity: on the same inputs the repaired variant reports the error. *)
+Example c20_fixed_reports_witness :
+  fst (deltify_tx Hident list_eqb true wit_tx [x61; x61] wit_sig 1) = DErr.
+Proof. exact fixed_reports_witness. Qed.
+
+Print Assumptions c20_no_silent_loss.
+Print Assumptions c20_last_call_tells.
+Print Assumptions c20_returns.
+Print Assumptions c20_either.
+Print Assumptions c20_transmit.
+Print Assumptions c20_transmit_either.
+Print Assumptions c20_model_passes.
+Print Assumptions c20_check_sound.
+Print Assumptions c20_refuted_unfixed.
+Print Assumptions c20_fixed_reports_witness.
